@@ -363,6 +363,28 @@ pub struct Problem {
     pub detail: String,
 }
 
+thread_local! {
+    /// structural bound on the bucket steps one dispatch (peek + fetch) may take, see `scan_budget`
+    static SCAN_BUDGET: std::cell::Cell<Option<u64>> = const { std::cell::Cell::new(None) };
+}
+
+/// Arms the scan-step hook of the calendar queue (H7) for the next dispatch: no correct scan can take more than
+/// (distance to the latest timestamp of the program in buckets) + n steps; peek and fetch both scan.
+fn arm_scan_budget() {
+    #[cfg(feature = "cq")]
+    if let Some(b) = SCAN_BUDGET.with(std::cell::Cell::get) {
+        des_cqueue::verif::scan_reset(Some(b));
+    }
+}
+
+fn scan_budget(prog: &Program, extra_horizon_ns: u64, default_queue: bool) -> u64 {
+    let (n, t) = if default_queue { (1028u64, 2_500_000u64) } else { (prog.n as u64, prog.t_ns.max(1)) };
+    let horizon = model_trace(prog).iter().map(|r| r.now_ns).max().unwrap_or(prog.start_ns).max(extra_horizon_ns).max(prog.start_ns);
+    // one armed window covers at most: a peek, a fetch, and (at the end of a limited run) the drain of everything that
+    // is left, whose scans add up to one pass over the horizon
+    3 * (horizon / t + n) + 2 * prog.nodes.len() as u64 + 64
+}
+
 pub struct App {
     prog: Rc<Program>,
     pub log: Vec<Rec>,
@@ -428,6 +450,7 @@ fn schedule(rt: &mut Runtime<App>, time_ns: u64, id: usize, relative: bool, dela
 
 impl Event<App> for Ev {
     fn handle(self, rt: &mut Runtime<App>) {
+        arm_scan_budget();
         let now = ns_of(SimTime::now());
         if self.ghost {
             problem(rt, "past-event-dispatched", format!("an event scheduled in the past (for {} ns) was dispatched at {now} ns", self.sched_ns));
@@ -583,6 +606,12 @@ pub fn real_run(prog: &Program, mode: Mode<'_>, opts: &RunOpts) -> Outcome {
         }
         let mut rt = b.build(app);
         out.now_after_build_ns = ns_of(SimTime::now());
+        let ext_horizon = match &mode {
+            Mode::Steps(steps) => steps.iter().map(|s| if let Step::Ext { time_ns, .. } = s { *time_ns } else { 0 }).max().unwrap_or(0),
+            _ => 0,
+        };
+        SCAN_BUDGET.with(|b| b.set(Some(scan_budget(prog, ext_horizon, opts.default_queue))));
+        arm_scan_budget();
         clock_observe_start();
 
         if opts.pre_run_probes && prog.start_ns > 0 {
@@ -599,6 +628,7 @@ pub fn real_run(prog: &Program, mode: Mode<'_>, opts: &RunOpts) -> Outcome {
             Mode::Steps(steps) => {
                 rt.start();
                 for s in steps.iter() {
+                    arm_scan_budget();
                     let before = rt.app.log.len();
                     match s {
                         Step::N(k) => {
@@ -639,11 +669,15 @@ pub fn real_run(prog: &Program, mode: Mode<'_>, opts: &RunOpts) -> Outcome {
                         dispatched: rt.num_events_dispatched(),
                     });
                 }
+                arm_scan_budget();
                 rt.dispatch_all();
                 rt.finish()
             }
         };
         out.clock = clock_observe_stop();
+        SCAN_BUDGET.with(|b| b.set(None));
+        #[cfg(feature = "cq")]
+        des_cqueue::verif::scan_reset(None);
         match result {
             Ok((app, time, profiler)) => {
                 out.log = app.log;
@@ -666,6 +700,9 @@ pub fn real_run(prog: &Program, mode: Mode<'_>, opts: &RunOpts) -> Outcome {
         }
     }));
     if let Err(p) = res {
+        SCAN_BUDGET.with(|b| b.set(None));
+        #[cfg(feature = "cq")]
+        des_cqueue::verif::scan_reset(None);
         let _ = clock_observe_stop();
         out.panicked = Some(vcommon::panic_message(&p));
     }
